@@ -748,13 +748,15 @@ def evidence(tier, seed, by_mode, det, n_viol, known_hits, errors, wall):
         'property_id': ID, 'tier': tier, 'seed': seed, 'level': 'exploration',
         'wall_s': round(wall, 2), 'violations': n_viol,
         'coverage': {
-            'evaluations': tot,
+            'evaluations': sum(s.get('instances', 0) for s in by_mode.values()),
+            'simulated_runs': tot,
             'distinct_nontrivial': len(shapes),
-            'rule': ('one evaluation = one simulated run (fork of a never-used interpreter; 1..6 live '
-                     'accelerator instances per caller, 1..8 callers, the plan/scheduler chooses which '
-                     'instance is fed next); an instance history is non-trivial when at least three terms '
-                     'were fed and judged; distinct = distinct (class, limexp, stream family, history '
-                     'length capped at 64, interleaved-with-other-instances flag) tuples, counted by hashing'),
+            'rule': ('one evaluation = one accelerator instance history judged term by term inside a '
+                     'simulated run (a run = fork of a never-used interpreter with 1..6 live instances per '
+                     'caller and 1..8 callers; the plan/scheduler chooses which instance is fed next); an '
+                     'instance history is non-trivial when at least three terms were fed and judged; distinct '
+                     '= distinct (class, limexp, stream family, history length capped at 64, '
+                     'interleaved-with-other-instances flag) tuples among them, counted by hashing'),
             'samples': samples[:3],
             'simulated_time': {'unit': 'logical yield points (no clock in this code base)',
                                'total': sum(s.get('points', 0) for s in by_mode.values())},
